@@ -349,7 +349,10 @@ def ffield(x, fr):
     """name of the frame field a load / store rooted at the frame reference designates (looking through the Option
     wrapper of last()/last_mut()), or None"""
     root = x.root if hasattr(x, 'root') else x.args[0]
-    if strip(root) is not fr:
+    sr = strip(root)
+    if sr is not None and sr is not fr and sr.kind == 'call' and sr.callee_name() in ('unwrap', 'expect', 'unwrap_unchecked') and sr.args and strip(sr.args[0]) is fr:
+        sr = fr                 # `stack.last_mut().unwrap()`: the same frame, the Option taken off by a call
+    if sr is not fr:
         return None
     f = list(x.fields())
     if f[:2] == ['as:Some', '0']:
